@@ -135,9 +135,17 @@ func (s *v6Server) GetLeases(flags GetLeasesFlags) (leases []*dhcpsvc.Lease) {
 	return leases
 }
 
-// getLeasesRef returns the actual leases slice.  For internal use only.
-func (s *v6Server) getLeasesRef() []*dhcpsvc.Lease {
-	return s.leases
+// cloneLeases implements the [DHCPServer] interface for *v6Server.
+func (s *v6Server) cloneLeases() (leases []*dhcpsvc.Lease) {
+	s.leasesLock.Lock()
+	defer s.leasesLock.Unlock()
+
+	leases = make([]*dhcpsvc.Lease, 0, len(s.leases))
+	for _, l := range s.leases {
+		leases = append(leases, l.Clone())
+	}
+
+	return leases
 }
 
 // FindMACbyIP implements the [Interface] for *v6Server.
@@ -230,9 +238,10 @@ func (s *v6Server) AddStaticLease(l *dhcpsvc.Lease) (err error) {
 	}
 
 	s.addLease(l)
-	s.conf.notify(LeaseChangedDBStore)
 	s.leasesLock.Unlock()
 
+	// Notify outside of the locked section, since storing the leases locks it.
+	s.conf.notify(LeaseChangedDBStore)
 	s.conf.notify(LeaseChangedAddedStatic)
 
 	return nil
@@ -288,9 +297,12 @@ func (s *v6Server) RemoveStaticLease(l *dhcpsvc.Lease) (err error) {
 		s.leasesLock.Unlock()
 		return err
 	}
-	s.conf.notify(LeaseChangedDBStore)
 	s.leasesLock.Unlock()
+
+	// Notify outside of the locked section, since storing the leases locks it.
+	s.conf.notify(LeaseChangedDBStore)
 	s.conf.notify(LeaseChangedRemovedStatic)
+
 	return nil
 }
 
@@ -394,11 +406,13 @@ func (s *v6Server) reserveLease(mac net.HardwareAddr) *dhcpsvc.Lease {
 }
 
 func (s *v6Server) commitDynamicLease(l *dhcpsvc.Lease) {
-	l.Expiry = time.Now().Add(s.conf.leaseTime)
-
+	// The lease is in the table already, so only change it under the lock.
 	s.leasesLock.Lock()
-	s.conf.notify(LeaseChangedDBStore)
+	l.Expiry = time.Now().Add(s.conf.leaseTime)
 	s.leasesLock.Unlock()
+
+	// Notify outside of the locked section, since storing the leases locks it.
+	s.conf.notify(LeaseChangedDBStore)
 	s.conf.notify(LeaseChangedAdded)
 }
 
